@@ -117,6 +117,7 @@ def tool_op_jobs(T, quick):
     U2 = '11111111-2222-3333-4444-555555555555'
     sc = scratch()
     payload = os.path.join(sc, 'payload'); open(payload, 'wb').write(bytes((i * 5 + 1) & 0xff for i in range(5000)))
+    setbg = os.path.join(sc, 'setbg.dbg'); open(setbg, 'w').write('set_bg 1 itable_unused 3\nset_bg 1 checksum calc\n')
     def dbg(*cmds):
         return [T['debugfs'], '-w', '-R', cmds[0], '{img}'] if len(cmds) == 1 else None
     bases = ['ext4csum', 'inline', 'eainode', 'quota', 'metabg', 'bs4k', 'bigalloc', 'mmp', 'desc128', 'deepext']
@@ -127,7 +128,7 @@ def tool_op_jobs(T, quick):
                ('ea_set', [D('ea_set /frag user.x ' + 'v' * 40)]), ('ea_set big', [D('ea_set /sparse user.y ' + 'w' * 600)]), ('ea_rm', [D('ea_rm /bs user.big')]),
                ('punch', [D('punch /f12 2 5')]), ('fallocate', [D('fallocate /empty 0 20')]), ('truncate via sif', [D('sif /bs size 10')]), ('kill_file', [D('kill_file /one')]),
                ('htree insert', [D('write %s /hx/%s' % (payload, 'k' * 36 + '_new'))]), ('expand dir', [D('expand_dir /d1')]),
-               ('set_inode_field', [D('sif /d1 mode 040700')]), ('ssv', [D('ssv mnt_count 3')]), ('set_bg', [D('set_bg 1 itable_unused 3')] + [[T['debugfs'], '-w', '-R', 'set_bg 1 checksum calc', '{img}']]),
+               ('set_inode_field', [D('sif /d1 mode 040700')]), ('ssv', [D('ssv mnt_count 3')]), ('set_bg', [[T['debugfs'], '-w', '-f', setbg, '{img}']]),          # one session: between the two commands the descriptor checksum is stale, a second open may refuse the filesystem
                ('freeb+setb', [D('freeb 40'), D('setb 40')]),
                ('tune2fs -U', [[T['e2fsck'], '-fy', '{img}'], [T['tune2fs'], '-U', U2, '{img}']]), ('tune2fs -L', [[T['tune2fs'], '-L', 'lbl', '{img}']]),
                ('tune2fs csum_seed', [[T['tune2fs'], '-O', 'metadata_csum_seed', '{img}'], [T['tune2fs'], '-U', U2, '{img}']]),
